@@ -26,6 +26,7 @@ func c05(c *Ctx) {
 	c05workers(c)
 	c05rescue(c)
 	c05maxconns(c)
+	c05options(c)
 }
 
 func c05limit(c *Ctx) {
@@ -884,4 +885,36 @@ func c05maxconns(c *Ctx) {
 	okLatch := len(sites) == 1 && strings.HasSuffix(sites[0], ":true")
 	c.R.Check(okLatch, rule, "rest/handler.MaxConnsHandler#latch", "one Limit of the configured size n is created per middleware and shared by all requests", posOf(c, f), fmt.Sprintf("NewLimit sites: %v", sites), nil, 1)
 	c.R.Min(rule, 2, "serve closure, latch")
+}
+
+// c05options: per-call option structs (worker limits) are fresh allocations, never shared package state.
+func c05options(c *Ctx) {
+	rule := "C05.R6"
+	n := 0
+	for _, pf := range []struct{ pkg, fn string }{{"core/fx", "newOptions"}, {"core/fx", "buildOptions"}, {"core/mr", "newOptions"}, {"core/mr", "buildOptions"}} {
+		f := c.P.Func(pf.pkg, pf.fn)
+		if f == nil || f.Blocks == nil {
+			continue
+		}
+		n++
+		ps := c.paths(rule, f, px.Config{MaxVisits: 2})
+		c.forall(rule, pf.pkg+"."+pf.fn+"#fresh", "the options a call runs with are a fresh struct (defaults + this call's options): a worker limit set by one call must not leak into later calls", f, ps, func(p *px.Path) (bool, string) {
+			if p.Exit != px.ExitReturn || len(p.Results) != 1 {
+				return true, ""
+			}
+			r := p.Results[0].Strip(false)
+			switch r.Kind {
+			case px.KAlloc:
+				return true, ""
+			case px.KCall:
+				if r.Call.Static != nil && (r.Call.Static.Name() == "newOptions") {
+					return true, ""
+				}
+			}
+			return false, "the options are not a fresh allocation (" + r.Describe() + "): they are shared between calls, so UnlimitedWorkers()/WithWorkers(n) of one call changes the limit of every later call"
+		})
+	}
+	if n < 3 {
+		c.R.Undecided(rule, "option constructors", "newOptions/buildOptions of fx and mr are found", fmt.Sprint(n))
+	}
 }
